@@ -378,6 +378,9 @@ def _call(o):
     if k == 'ident':
         return [linalg.matrix_identity(o['n'])]
     A = qpts(o['A'])
+    o['_args'] = [A]                  # kept so that the oracle can see whether a routine modified its arguments
+    if 'b' in o:
+        o['_args'].append(None)
     if k == 'pivot':
         mp, p, s = linalg.matrix_pivot(A, sign=True)
         return [mp, p, [[s]]]
@@ -386,9 +389,11 @@ def _call(o):
     if k == 'det':
         return [[[linalg.matrix_determinant(A)]]]
     if k == 'lusolve':
-        return [linalg.lu_solve(A, qpts(o['b']))]
+        b = qpts(o['b']); o['_args'][1] = b
+        return [linalg.lu_solve(A, b)]
     if k == 'lufactor':
-        return [linalg.lu_factor(A, qpts(o['b']))]
+        b = qpts(o['b']); o['_args'][1] = b
+        return [linalg.lu_factor(A, b)]
     raise ValueError(k)
 
 
@@ -400,6 +405,7 @@ def _run(ops):
         try:
             res.append(_call(o))
         except Exception:
+            o.pop('_args', None)
             res.append(None)
     return res
 
@@ -564,6 +570,13 @@ def oracle(c):
         known = None
         for i, (o, r) in enumerate(zip(ops, res)):
             why = _check_call(o, r)
+            # the routines answer questions about their arguments: they must not modify them
+            if not why and '_args' in o:
+                if _fx(o['_args'][0]) != o['A']:
+                    why = "%s modified its matrix argument in place" % o['call']
+                elif len(o['_args']) > 1 and o['_args'][1] is not None and _fx(o['_args'][1]) != o['b']:
+                    why = "%s modified its right-hand side argument in place" % o['call']
+            o.pop('_args', None)
             if why:
                 if _is_f16b(o, why):
                     known = known or why
